@@ -172,7 +172,13 @@ def correspondence(chk, binp, n_fonts, texts, per_file, max_heavy):
     # heavy cases: one per file, at most max_heavy, spread over distinct fonts first
     seen = set()
     chosen = []
-    for hc in heavy_cases:
+
+    def out_len(hc):
+        m = re.match(r"big (\d+)", hc[3])
+        return int(m.group(1)) if m else 10 ** 9
+
+    # shortest first: the cost of the list-based model grows quadratically with the buffer length
+    for hc in sorted(heavy_cases, key=out_len):
         if hc[0] not in seen and len(chosen) < max_heavy:
             seen.add(hc[0])
             chosen.append(hc)
